@@ -228,6 +228,21 @@ ROUND5 = {
     'C16': "Round 5: a repeated member (array without wrapper element) of the base class with subclass items.",
     'C18': "Round 5: falsy and absent fields of a bare complex argument; the NullServer result against reference-decoded XML and SOAP replies.",
 }
+
+ROUND6 = {
+    'C01': "Round 6: argument-less bare methods; fixed-width integers at both ends of their ranges. Deductive: the Spyne client's argument packing for symbolic values.",
+    'C05': "Round 6: an unwrapped array whose item type carries the bound.",
+    'C06': "Round 6: every primitive model of the package in one schema that must compile (defect found and fixed: MimeType / MediaType patterns).",
+    'C07': "Round 6: attributes of enumerated types with a namespace of their own; proved: the binding namespace for every protocol type string.",
+    'C08': "Round 6: protocol classes that override single readers (HttpRpc, Soap12) against the literals of the lexical space.",
+    'C10': "Round 6: SOAP header blocks that are foreign, repeated, unqualified or malformed.",
+    'C11': "Round 6: MessagePack-RPC method names with stray non-UTF-8 bytes; proved: the interface key for every module name.",
+    'C12': "Round 6: a method published under an address pattern.",
+    'C14': "Round 6: a listener that deregisters itself while it runs.",
+    'C15': "Round 6: default_factory through further derivations.",
+    'C16': "Round 6: the class tree served first by an application with another target namespace.",
+    'C18': "Round 6: Duration / DateTime / Decimal / Double / Date values. Deductive: get_serialization_instance for sequences / dicts of symbolic values.",
+}
 ISOLATION = (" Every path runs in a forked child of the worker (no process-wide state of the code under contract is shared "
              "between paths; native replays start from the freshly loaded state).")
 
@@ -246,7 +261,7 @@ def main():
         checks=[], not_applicable=[], notes="exit codes: 0 held, 1 VIOLATION, 2 undecided, 3 checker error")
     for k in sorted(CLAIMED):
         text, note, tech, ref = CLAIMED[k][:4]
-        text = text + ' ' + ROUND4.get(k, '') + ' ' + ROUND5.get(k, '') + ISOLATION
+        text = text + ' ' + ROUND4.get(k, '') + ' ' + ROUND5.get(k, '') + ' ' + ROUND6.get(k, '') + ISOLATION
         cat = CLAIMED[k][4] if len(CLAIMED[k]) > 4 else 'proof'
         m['checks'].append(dict(
             property_id=k, quick_cmd="bin/check %s --tier quick" % k, thorough_cmd="bin/check %s --tier thorough" % k,
